@@ -124,11 +124,25 @@ func runC05(c *core.Ctx) {
 		srv := pool.Servers[wk]
 		r := c.Rng("world", i)
 		files, element, food, depthArgs := c05World(r)
+		if i%3 == 2 {
+			// every third input is a general world (nested recipes with sharing, quantities of exactly 1,
+			// repeated ingredients, redeclared headings, many elements): visiting-order effects need not
+			// come from ties
+			w := newWorld(r, worldOpts{Exact: i%2 == 0, MinDays: 1, Notes: true, NoBig: true})
+			files, element, food, depthArgs = w.Files(), w.Basics[r.Intn(len(w.Basics))], string([]rune(w.Recipes[0])[:1]), nil
+			c.Count("general_worlds", 1)
+		}
 		srv.Write(files)
 		if altPool != nil {
 			altPool.Servers[wk].Write(files)
 		}
-		for ci, cmd := range c05Commands(element, food) {
+		cmds := c05Commands(element, food)
+		// plus command shapes drawn from the catalogue: flag combinations nobody listed by hand
+		// (two presentation flags that touch the same setting, a selector next to a renderer, ...)
+		for k := 0; k < 6; k++ {
+			cmds = append(cmds, randomCmd(r, element, food, "2021/03/01").Args)
+		}
+		for ci, cmd := range cmds {
 			global := []string{"--no-color", "-d", "food.yaml", "-l", "log.yaml", "--today", "2021/03/10"}
 			if (i+ci)%2 == 0 {
 				global = append(global, depthArgs...)
